@@ -151,6 +151,9 @@ fn pack_coupon ( slot : u32 , value : u8 ) -> ( r : u32 ) ensures r == apack ( s
 proof {
 let v = value as u32 ;
 assert ( v <= 255 ==> ( v << 26 ) == ( ( v & 0x3f ) << 26 ) ) by ( bit_vector ) ;
+let g_v = value as u32 ;
+let g_s = slot ;
+assert ( ( g_v << 26 ) | ( g_s & 0x3ffffff ) == ( g_s & 0x3ffffff ) | ( g_v << 26 ) && g_s & 0x3ffffff == 0x3ffffff & g_s && g_s & 0x3ffffff == g_s % 0x4000000 ) by ( bit_vector ) ;
 }
 ( ( value as u32 ) << KEY_BITS_26 ) | ( slot & KEY_MASK_26 ) }
 
